@@ -37,8 +37,7 @@ HELPERS = {
             (CM + 'mcmc', ['mh_options', 'gibbs_options', 'compound_step', 'mcmc_sampler']),
             (CM + 'prior', ['calculate_alphas', 'log_genotype_allele_prior', 'log_genotype_prior']),
             (CM + 'likelihood', ['log_likelihood_alleles', 'log_likelihood_alleles_cached']),
-            (CM + 'utils', ['count_allele', 'allelic_dosage']),
-            (CM + 'classes', ['CallingMCMC.fit'])],
+            (CM + 'utils', ['count_allele', 'allelic_dosage'])],
     'C03': [(J, ['add_log_prob', 'increment_genotype', 'genotype_alleles_as_index', 'comb_with_replacement']),
             (CM + 'exact', ['_call_posterior_mode', '_genotype_support_log_joint', '_posterior_allele_frequencies', 'posterior_mode',
                             '_genotype_likelihoods', 'genotype_likelihoods', 'genotype_posteriors', 'posterior_allele_frequencies',
@@ -73,9 +72,7 @@ HELPERS = {
     'C08': [(J, ['seed_numba']),
             (BC, ['program.call_locus', 'program._assemble_loci_wrapped', 'program._run_stdout_single_core', 'program._worker',
                   'program._writer', 'program._run_stdout_multi_core', 'program.run_stdout']),
-            (AM + 'mcmc', ['DenovoMCMC.fit']),
-            (CM + 'classes', ['CallingMCMC.fit']),
-            (PM + 'classes', ['PedigreeCallingMCMC.fit'])],
+            ],
     'C09': [ARRAYMAP, ASSEMBLE_LLK,
             (CM + 'likelihood', ['log_likelihood_alleles_cached']),
             (PM + 'likelihood', ['log_likelihood_alleles_cached']),
@@ -135,8 +132,7 @@ HELPERS = {
                             'gamete_allele_log_pmf', 'trio_log_pmf', 'markov_blanket_log_probability',
                             'generic_markov_blanket_log_probability', 'trio_allele_log_pmf', 'markov_blanket_log_allele_probability']),
             (PM + 'likelihood', ['log_likelihood_alleles_cached']),
-            (CM + 'utils', ['count_allele']),
-            (PM + 'classes', ['PedigreeCallingMCMC.fit'])],
+            (CM + 'utils', ['count_allele'])],
     'C19': [('mchap.application.find_snvs', ['_ord_to_index', 'bases_to_indices', '_count_alleles', 'bam_samples', 'bam_region_depths',
                                              '_order_by', '_vcf_sort_alleles', '_order_as_vcf_alleles', 'format_allele_counts',
                                              'format_samples_columns', 'write_vcf_block'])],
@@ -151,11 +147,13 @@ CSG = 'program.call_sample_genotypes'
 _TRACE_C = [CM + 'classes.GenotypeAllelesMultiTrace', CM + 'classes.PosteriorGenotypeAllelesDistribution']
 _SUMMARY_FIELDS = ['GT', 'GPM', 'GQ', 'SPM', 'SQ', 'MCI', 'AFP', 'ACP', 'AOP', 'GP']
 
-# what a property owns inside the shared per-locus orchestrators: (program module, description, callee prefixes, output fields)
+# what a property owns inside a shared function: (module, description, callee prefixes, output fields[, argument names[, function]])
+# the function defaults to program.call_sample_genotypes of the application module
 SLICES = {
     'C01': [('assemble', 'construction and fit of the assembly sampler', [AM + 'mcmc.DenovoMCMC'], None)],
     'C15': [('assemble', 'construction and fit of the assembly sampler', [AM + 'mcmc.DenovoMCMC'], None)],
-    'C02': [('call', 'construction, fit and burn-in of the calling sampler', [CM + 'classes.CallingMCMC', CM + 'classes.GenotypeAllelesMultiTrace.burn'], None)],
+    'C02': [('call', 'construction, fit and burn-in of the calling sampler', [CM + 'classes.CallingMCMC', CM + 'classes.GenotypeAllelesMultiTrace.burn'], None),
+            (CM + 'classes', 'what fit hands to the sampler', [CM + 'mcmc.mcmc_sampler'], None, None, 'CallingMCMC.fit')],
     'C03': [('call_exact', 'exact posterior calls and the fields derived from them', [CM + 'exact.', J + '.index_as_genotype_alleles'],
              ['GT', 'GPM', 'GQ', 'SPM', 'SQ', 'AFP', 'ACP', 'AOP', 'GP', 'GL'])],
     'C13': [('assemble', 'haplotype reporting', [AM + 'haplotype_calling.', APP + 'assemble._genotype', 'mchap.mset.categorize'],
@@ -168,7 +166,8 @@ SLICES = {
             ('call_pedigree', 'masked alleles and prior frequencies', [PM + 'classes.PedigreeCallingMCMC', CM + 'classes.GenotypeAllelesMultiTrace.relabel'], ['AFPRIOR', 'GT'])],
     'C17': [('call_pedigree', 'pedigree error statistic', [PM + 'classes.PedigreeAllelesMultiTrace.incongruence'], ['PEDERR'])],
     'C18': [('call_pedigree', 'construction, fit and burn-in of the pedigree sampler',
-             [PM + 'classes.PedigreeCallingMCMC', PM + 'classes.PedigreeAllelesMultiTrace.burn', PM + 'classes.PedigreeAllelesMultiTrace.individual'], None)],
+             [PM + 'classes.PedigreeCallingMCMC', PM + 'classes.PedigreeAllelesMultiTrace.burn', PM + 'classes.PedigreeAllelesMultiTrace.individual'], None),
+            (PM + 'classes', 'what fit hands to the sampler', [PM + 'mcmc.mcmc_sampler'], None, None, 'PedigreeCallingMCMC.fit')],
 }
 
 
@@ -178,8 +177,9 @@ def run(ctx, pid):
     for mod, names in HELPERS.get(pid, ()):
         n += refspec.compare_module(ctx, mod, names, rule)
     for prog, what, prefixes, fields, *rest in SLICES.get(pid, ()):
-        mod = APP + prog
+        mod = prog if prog.startswith('mchap.') else APP + prog
+        fn = rest[1] if len(rest) > 1 else CSG
         specs = refspec.load_specs(mod)
-        refspec.compare_slice(ctx, f"{mod}.{CSG}", specs[CSG], f"R{pid[1:]}.S/slice-agreement", what, tuple(prefixes), fields, rest[0] if rest else None)
+        refspec.compare_slice(ctx, f"{mod}.{fn}", specs[fn], f"R{pid[1:]}.S/slice-agreement", what, tuple(prefixes), fields, rest[0] if rest else None)
         n += 1
     return n
